@@ -297,7 +297,7 @@ fn bases() -> Vec<(String, HCfg, Vec<Ev>)> {
 
 /// The unmutated run: the full default history and, per delivery step, (length, header length).
 async fn base_history(cfg: &HCfg, prefix: &[Ev]) -> (Vec<Ev>, Vec<(usize, usize, usize, usize)>, bool) {
-    let monitors = Monitors { c03: false, c04: false, c13: false, c15: false, c19: false };
+    let monitors = Monitors { c03: false, c04: false, c13: false, c15: false, c19: false, c20: false };
     let mut w = World::build(cfg, monitors).await;
     let d = Tamper { m: Mutn::None };
     let mut hist = vec![];
@@ -376,7 +376,7 @@ pub fn replay(payload: &serde_json::Value) {
 pub fn run() {
     let mut rep = Report::new("C02", "fault_enumeration");
     let thorough = rep.thorough();
-    let monitors = Monitors { c03: false, c04: false, c13: false, c15: false, c19: false };
+    let monitors = Monitors { c03: false, c04: false, c13: false, c15: false, c19: false, c20: false };
     let mut jobs: Vec<(usize, usize, Mutn)> = vec![];
     let bases = bases();
     let mut base_runs = vec![];
